@@ -301,15 +301,20 @@ def c02(tier, repo=None):
         fams = [("d3", consts("dag", 3, 4, 1, 0, multi=True), {}),
                 ("d3b", consts("dag", 3, 3, 2, 0), {}),
                 ("w3", consts("wf", 3, 4, 1, 0, multi=True), {}),
-                ("d2o", consts("dag", 2, 3, 1, 0, orphans=True), {})]
+                ("d2o", consts("dag", 2, 3, 1, 0, orphans=True), {}),
+                # "at most once per run" includes runs that were interrupted and resumed: the trigger bookkeeping must survive the checkpoint
+                ("d3i", consts("dag", 3, 3, 1, 0, marks=1), {}),
+                ("w3i", consts("wf", 3, 3, 1, 0, marks=1), {})]
         models = ["MC_EinoRun_dag3.cfg", "MC_EinoRun_wf3q.cfg"]
-        limit = 40000
+        limit = 60000
     else:
         fams = [("d3", consts("dag", 3, 5, 2, 0, multi=True), {"timeout": 1800}),
                 ("w3", consts("wf", 3, 5, 2, 0, multi=True), {"timeout": 1800}),
                 ("d4s", consts("dag", 4, 7, 2, 0, multi=True, ends=3), {"simulate": "num=10000000", "depth": 18, "seed": vlib.SEED, "workers": 1, "sim_seconds": 150, "keep": 60000}),
                 ("w4s", consts("wf", 4, 7, 2, 0, multi=True, ends=3), {"simulate": "num=10000000", "depth": 18, "seed": vlib.SEED, "workers": 1, "sim_seconds": 150, "keep": 60000}),
-                ("d3o", consts("dag", 3, 4, 1, 0, orphans=True), {})]
+                ("d3o", consts("dag", 3, 4, 1, 0, orphans=True), {}),
+                ("d3i", consts("dag", 3, 4, 1, 0, marks=2, multi=True), {"timeout": 1800}),
+                ("w3i", consts("wf", 3, 4, 1, 0, marks=2), {"timeout": 1800})]
         models = ["MC_EinoRun_dag3.cfg", "MC_EinoRun_wf3.cfg"]
         limit = 250000
     return run_engine_check("C02", tier, model_cfgs=models, families=fams, decorate_kw={}, nontrivial=nontrivial, classify=classify,
